@@ -7,6 +7,7 @@ package main
 import (
 	"bytes"
 	"fmt"
+	"os"
 	"go/ast"
 	"go/constant"
 	"go/printer"
@@ -138,22 +139,101 @@ func (x *Exec) oblName(fnName, class, label string) string {
 }
 
 func (ob *Obligation) Query() string {
+	sc := ob.script
+	sc.mu.Lock()
+	defer sc.mu.Unlock()
+	anc := sc.Ancestors(ob.PC)
+	sc.index(ob.mark)
+	tail := append([]string{}, ob.extra...)
+	tail = append(tail, fmt.Sprintf("(assert %s)", ob.PC.S))
+	if ob.Expect != "sat" {
+		tail = append(tail, fmt.Sprintf("(assert (not %s))", ob.Goal.S))
+	}
+	// cone of influence: symbols reachable from the goal through definitions and through the
+	// assumptions that mention them
+	need := map[string]bool{}
+	var work []string
+	addSyms := func(text string) {
+		for _, tok := range symRe.FindAllString(text, -1) {
+			if _, ok := sc.defLine[tok]; ok && !need[tok] {
+				need[tok] = true
+				work = append(work, tok)
+			}
+		}
+	}
+	for _, l := range tail {
+		addSyms(l)
+	}
+	keepAssert := map[int]bool{}
+	for {
+		for len(work) > 0 {
+			n := work[len(work)-1]
+			work = work[:len(work)-1]
+			li := sc.defLine[n]
+			if li < ob.mark {
+				for _, d := range sc.lineSyms[li] {
+					if !need[d] {
+						need[d] = true
+						work = append(work, d)
+					}
+				}
+			}
+		}
+		progress := false
+		for _, li := range sc.assertLines {
+			if li >= ob.mark || keepAssert[li] {
+				continue
+			}
+			if g := sc.guards[li]; g != "" && !anc[g] {
+				continue
+			}
+			hit := len(sc.lineSyms[li]) == 0
+			for _, d := range sc.lineSyms[li] {
+				if need[d] {
+					hit = true
+					break
+				}
+			}
+			if hit {
+				keepAssert[li] = true
+				progress = true
+				for _, d := range sc.lineSyms[li] {
+					if !need[d] {
+						need[d] = true
+						work = append(work, d)
+					}
+				}
+			}
+		}
+		if !progress && len(work) == 0 {
+			break
+		}
+	}
 	var b strings.Builder
-	anc := ob.script.Ancestors(ob.PC)
-	for i, l := range ob.script.lines[:ob.mark] {
-		if g := ob.script.guards[i]; g != "" && !anc[g] {
-			continue
+	for i, l := range sc.lines[:ob.mark] {
+		if os.Getenv("GOVC_DEBUG") != "" && (sc.lineKind[i] == 'd' && need[sc.lineName[i]]) {
+			for _, tok := range symRe.FindAllString(l, -1) {
+				if li, ok := sc.defLine[tok]; ok && !need[tok] {
+					fmt.Fprintf(os.Stderr, "COI BUG: line %d (%s) needs %s (line %d, kind %c) syms=%v\n", i, sc.lineName[i], tok, li, sc.lineKind[li], sc.lineSyms[i])
+				}
+			}
+		}
+		switch sc.lineKind[i] {
+		case 'a':
+			if !keepAssert[i] {
+				continue
+			}
+		case 'd':
+			if !need[sc.lineName[i]] {
+				continue
+			}
 		}
 		b.WriteString(l)
 		b.WriteByte('\n')
 	}
-	for _, l := range ob.extra {
+	for _, l := range tail {
 		b.WriteString(l)
 		b.WriteByte('\n')
-	}
-	fmt.Fprintf(&b, "(assert %s)\n", ob.PC.S)
-	if ob.Expect != "sat" {
-		fmt.Fprintf(&b, "(assert (not %s))\n", ob.Goal.S)
 	}
 	return b.String()
 }
@@ -184,7 +264,7 @@ func (x *Exec) strLit(s string) Term {
 	t := IntConst(int64(id))
 	x.strLits[s] = t
 	x.S.Assert(Eq(x.strLen(t), BVInt(int64(len(s)), 64)))
-	if len(s) <= 64 {
+	if len(s) <= 12 {
 		for i := 0; i < len(s); i++ {
 			x.S.Assert(Eq(x.strByte(t, BVInt(int64(i), 64)), BVInt(int64(s[i]), 8)))
 		}
@@ -202,7 +282,8 @@ func (x *Exec) wfFacts(t types.Type, vals []Term, next Term) []Term {
 	switch u := t.Underlying().(type) {
 	case *types.Slice:
 		arr, off, ln, cp := vals[0], vals[1], vals[2], vals[3]
-		out = append(out, IntLe(IntConst(0), arr), IntLt(arr, next),
+		// (backing arrays of package-level slices live at negative references)
+		out = append(out, IntLt(arr, next),
 			BVCmp("bvule", ln, cp), BVCmp("bvule", cp, sizeLimit), BVCmp("bvule", off, sizeLimit),
 			Implies(Eq(arr, IntConst(0)), Eq(cp, BVInt(0, 64))))
 	case *types.Pointer, *types.Map, *types.Chan, *types.Signature:
